@@ -4,6 +4,7 @@ import (
 	"encoding/json"
 	"fmt"
 	"math"
+	"sort"
 	"strings"
 
 	"github.com/aclements/go-moremath/stats"
@@ -66,6 +67,16 @@ type c13Case struct {
 
 func init() {
 	mon.Register(&mon.Prop{ID: "C13", Run: c13Run, Replay: func(w *mon.W, v *mon.ViolationRec) {
+		var probe struct {
+			Big bool `json:"big"`
+		}
+		if json.Unmarshal(v.Case, &probe) == nil && probe.Big {
+			var bc c13BigCase
+			if json.Unmarshal(v.Case, &bc) == nil {
+				c13JudgeBig(w, bc)
+			}
+			return
+		}
 		var c c13Case
 		if json.Unmarshal(v.Case, &c) == nil {
 			c13Judge(w, c)
@@ -1240,8 +1251,8 @@ func c13DrawPol(rng *mon.Rand) int {
 }
 
 func c13Run(r *mon.Run) {
-	r.Rule("histories of Add and Combine over up to 6 accumulators of up to 200 logical values each, each under an observation policy (which methods are called when is part of the history, since an implementation may update state lazily in its readers): all statistics of all accumulators after every step in a fixed order / only the accumulator just written / nothing until the last step / each accumulator with a per-case probability, the last three with the observers in a drawn order or a single observer only (a 'cold' Variance, StdDev, RMS or Mean), and everything read after the last step. The exported fields are read after every step. An observed statistic is compared with the 400-bit batch statistic of the values the accumulator logically contains (Count, Weight exact; Min, Max equal; Total within 16 n eps sum|x|; Mean within 16 n eps max|x|; RMS within 16 n eps relative; for n>=2 Variance within 16 n eps kappa var (+ second-order term), StdDev the square root of that window); a statistic already observed since the accumulator was last written, and the fields of every accumulator but the receiver, must be bit-identical to what they were. In a share of the cases Mean, RMS, Variance, StdDev and String are also called where the statement gives them no meaning (no value; one value for Variance, StdDev, String) and the results discarded. Enumerated: every Add-only stream length 1..200 x value kind read once at the end; every split point of streams of length <=12 in three arrival/merge orders x all value kinds, once observed after every step, once only at the end, once under a drawn policy; every pair of split points of streams <=8 (thorough 12) x four merge orders likewise; every sequence of 5 (thorough 6) operations from {Add to one of 3, Combine of an ordered pair of 3} on positive and on negative data observed after every step, and every such sequence of 1..5 (6) operations observed only at the end. Random: free, merge-tree, empty-side, repeated-source and heterogeneous-shard (every accumulator fed from its own value kind and scale) histories under drawn policies. Value kinds include all-zero data (+0 and -0), a run of zeros before or after non-zero values, a zero constant, a constant run of 8 or more values followed by different ones, one value that absorbs the others in Total, two clusters 2e3..1e9 standard deviations apart, and magnitudes from 5e-150 to 1e150; where the batch statistic is exactly 0 (all-zero data) the tolerance is 0 and exactly 0 is demanded. In the cases with reads in undefined states String() is also called on accumulators holding two or more values (text not judged). Non-trivial: the history hits a class (empty side, both-empty-then-add, new extreme, depth, kappa, repeat source, pending writes at a Combine, cold reader ...); distinct by hash of the operation list and the observation policy.")
-	r.Assume("values are finite with 5e-150 <= |x| <= 1e150 or zero (of either sign): squares and sums of 200 squares neither overflow nor become subnormal",
+	r.Rule("histories of Add and Combine over up to 6 accumulators of up to 200 logical values each, each under an observation policy (which methods are called when is part of the history, since an implementation may update state lazily in its readers): all statistics of all accumulators after every step in a fixed order / only the accumulator just written / nothing until the last step / each accumulator with a per-case probability, the last three with the observers in a drawn order or a single observer only (a 'cold' Variance, StdDev, RMS or Mean), and everything read after the last step. The exported fields are read after every step. An observed statistic is compared with the 400-bit batch statistic of the values the accumulator logically contains (Count, Weight exact; Min, Max equal; Total within 16 n eps sum|x|; Mean within 16 n eps max|x|; RMS within 16 n eps relative; for n>=2 Variance within 16 n eps kappa var (+ second-order term), StdDev the square root of that window); a statistic already observed since the accumulator was last written, and the fields of every accumulator but the receiver, must be bit-identical to what they were. In a share of the cases Mean, RMS, Variance, StdDev and String are also called where the statement gives them no meaning (no value; one value for Variance, StdDev, String) and the results discarded. Enumerated: every Add-only stream length 1..200 x value kind read once at the end; every split point of streams of length <=12 in three arrival/merge orders x all value kinds, once observed after every step, once only at the end, once under a drawn policy; every pair of split points of streams <=8 (thorough 12) x four merge orders likewise; every sequence of 5 (thorough 6) operations from {Add to one of 3, Combine of an ordered pair of 3} on positive and on negative data observed after every step, and every such sequence of 1..5 (6) operations observed only at the end. Random: free, merge-tree, empty-side, repeated-source and heterogeneous-shard (every accumulator fed from its own value kind and scale) histories under drawn policies. Value kinds include all-zero data (+0 and -0), a run of zeros before or after non-zero values, a zero constant, a constant run of 8 or more values followed by different ones, one value that absorbs the others in Total, two clusters 2e3..1e9 standard deviations apart, and magnitudes from 5e-150 to 1e150; where the batch statistic is exactly 0 (all-zero data) the tolerance is 0 and exactly 0 is demanded. In the cases with reads in undefined states String() is also called on accumulators holding two or more values (text not judged). Long histories (list-free 400-bit running sums as the shadow, the same windows with n the count): one stream of 200..2e5 values, and 2..6 parts of comparable size (each within a factor 2 of a magnitude drawn log-uniformly in 200..1.5e5, now and then an empty one) merged by a star, a chain or a random tree with further values arriving after the merges; sizes log-uniform or at / just beyond / just below a round count (2^8..2^20, {1,2,5}x10^3..10^6); a few cases per run with a stream of 2e5..1.2e6 values or parts of 1e5..6e5 (one stream of more than 1e6 values and one merge of two parts of more than 1e5 in every run); one value kind for all sources, one per source, or clusters 0.5..1e6 spreads apart. The fields are read at every round count, its two neighbours and a dozen drawn counts of the accumulator being fed, the methods at a drawn share (10%, 50%, all) of those counts / only around a Combine (argument before and after, receiver after) / only after the last operation; all statistics of all accumulators at the end. Non-trivial: the history hits a class (empty side, both-empty-then-add, new extreme, depth, kappa, repeat source, pending writes at a Combine, cold reader ...); distinct by hash of the operation list and the observation policy.")
+	r.Assume("values are finite with 5e-150 <= |x| <= 1e150 or zero (of either sign): squares and sums of 200 squares neither overflow nor become subnormal; in a long history of N values in all, 1e-140 <= |x| <= 1e150/N or zero, so that sums of N squares and the merge term delta^2 nS nO stay in range (a generated long case outside this range is not executed)",
 		"offset/spread (the condition number kappa of the variance) is at most about 1e10, the design's hostile range",
 		"statistics of an accumulator holding no value are not judged beyond Count=0, Total=0; Variance and StdDev only from two values; a reader called in such a state may return anything (or panic) but must leave the accumulator usable",
 		"calling a reader does not change the value any reader returns later (a statistic read twice with no Add/Combine of that accumulator in between is bit-identical)",
@@ -1254,7 +1265,10 @@ func c13Run(r *mon.Run) {
 		"read-while-empty-then-judged", "read-while-single-then-judged",
 		"merge-both-sides-all-zero", "merge-one-side-all-zero", "zero-run-then-nonzero", "zero-run-after-nonzero",
 		"constant-run>=8-then-different", "add-absorbed-by-total", "merge-separated-distributions",
-		"heterogeneous-shards", "string-read-then-judged", "magnitude-beyond-1e100")
+		"heterogeneous-shards", "string-read-then-judged", "magnitude-beyond-1e100",
+		"judged-count>=1e4", "judged-count>=1e5", "judged-count>=1e6", "judged-at-round-count", "judged-just-past-round-count",
+		"merge-both-sides>=1e4", "merge-both-sides>=1e5", "large-merge-means-apart", "judged-merge-of-large-parts",
+		"long-history-observed-only-at-end")
 	if err := ref.StreamSelfTest(); err != nil {
 		r.Inconclusive("reference self-test failed: " + err.Error())
 		return
@@ -1415,4 +1429,618 @@ func c13Run(r *mon.Run) {
 		w.HitIf(hetero, "heterogeneous-shards")
 		watch(w, c)
 	})
+
+	// 5. long streams and large parts (the list-free shadow): sizes from 200 up
+	// to 2e5 log-uniformly and at / just beyond round counts; a few cases per
+	// run reach 1e5..1.2e6 values per stream or part
+	r.Parallel("long-stream", r.Pick(96, 1200), func(w *mon.W, i int) { c13JudgeBig(w, c13GenBig(w.Rng, 0, false, false)) })
+	r.Parallel("long-merge", r.Pick(96, 1200), func(w *mon.W, i int) { c13JudgeBig(w, c13GenBig(w.Rng, 1, false, false)) })
+	r.Parallel("long-huge", r.Pick(16, 96), func(w *mon.W, i int) { c13JudgeBig(w, c13GenBig(w.Rng, i%2, true, i < 2)) })
+}
+
+// ---------------------------------------------------------------------------
+// long streams and large parts
+//
+// The histories above stop at 200 values per accumulator. The statement
+// quantifies over streams and parts of any size, and an implementation may
+// behave differently from some size on (a periodic renormalisation, another
+// formula above a cutoff, a narrow counter, block processing). A long case
+// is a short program over up to 6 accumulators, each fed from its own
+// generated list: "acc[A] receives its next N values" and "acc[A].Combine(
+// &acc[B])". The values are a function of (VSeed, source, kind, Tot) and are
+// not stored; the shadow of an accumulator is ref.StreamSums (400-bit running
+// sums, no list). The exported fields are read at every mark (a logical count
+// of the accumulator being fed: round numbers, their neighbours and drawn
+// counts); the methods at the marks of the observation policy, after a
+// Combine (the receiver) and, all of them on every accumulator, at the end.
+
+const c13KCluster = -1 // Centre[i] + Norm()*Spread
+
+type c13BigOp struct {
+	K int `json:"k"` // 0: acc[A] receives its next N values; 1: acc[A].Combine(&acc[B])
+	A int `json:"a"`
+	B int `json:"b,omitempty"`
+	N int `json:"n,omitempty"`
+}
+
+type c13BigCase struct {
+	Big    bool       `json:"big"` // distinguishes the case from a c13Case in a replay file
+	Tag    string     `json:"tag,omitempty"`
+	VSeed  uint64     `json:"vseed"`
+	Kinds  []int      `json:"kinds"`  // value kind of each source (c13KCluster: a cluster)
+	Tot    []int      `json:"tot"`    // length of each source's list (the values depend on it)
+	Centre []mon.F    `json:"centre"` // of a cluster source
+	Spread mon.F      `json:"spread"`
+	Ops    []c13BigOp `json:"ops"`
+	// Marks: logical counts of the accumulator being fed at which fields and
+	// methods are read; FMarks: the fields only. Obs: 0 methods at the marks
+	// and after every Combine, 1 methods after a Combine only, 2 no method
+	// before the last operation.
+	Marks  []int `json:"marks,omitempty"`
+	FMarks []int `json:"fmarks,omitempty"`
+	Obs    int   `json:"obs"`
+}
+
+var c13BigObsNames = []string{"obs=marks", "obs=merges", "obs=final"}
+
+// c13Rounds: the counts an implementation is likely to switch behaviour at.
+var c13Rounds = func() []int {
+	var rs []int
+	for k := 8; k <= 20; k++ {
+		rs = append(rs, 1<<k)
+	}
+	for p := 1000; p <= 1000000; p *= 10 {
+		rs = append(rs, p, 2*p, 5*p)
+	}
+	return rs
+}()
+
+func c13IsRound(n int) bool {
+	for _, r := range c13Rounds {
+		if r == n {
+			return true
+		}
+	}
+	return false
+}
+
+// c13BigVals: the list of source i.
+func c13BigVals(c *c13BigCase, i int) []float64 {
+	rng := mon.NewRand(c.VSeed, uint64(i))
+	if c.Kinds[i] == c13KCluster {
+		xs := make([]float64, c.Tot[i])
+		for j := range xs {
+			xs[j] = float64(c.Centre[i]) + rng.Norm()*float64(c.Spread)
+		}
+		return xs
+	}
+	return c13Vals(rng, c.Kinds[i], c.Tot[i])
+}
+
+// c13BigStat judges one statistic against the batch statistics rf, with the
+// windows of c13Judge (judgeStat, varWindow): "" when it is within them.
+func c13BigStat(w *mon.W, rf *ref.StreamRef, k int, got float64) string {
+	fn := float64(rf.N)
+	varWindow := func() (v, tol, kappa float64) {
+		v = ref.F64(rf.Var)
+		mean, msq := ref.F64(rf.Mean), ref.F64(rf.MSq)
+		kk := c13C * fn * c13Eps
+		sd := math.Sqrt(v)
+		tol = kk*sd*math.Hypot(sd, mean) + kk*kk*msq
+		kappa = rf.Kappa()
+		return
+	}
+	switch k {
+	case c13Weight:
+		if got != fn {
+			return fmt.Sprintf("Weight()=%v", got)
+		}
+	case c13Mean:
+		tol := c13C * fn * c13Eps * rf.MaxAbs
+		if e := ref.StreamAbsDiff(got, rf.Mean); !w.Err("Mean", e, tol) {
+			return fmt.Sprintf("Mean()=%.17g, mean is %.17g (err %.3g, tol %.3g)", got, ref.F64(rf.Mean), e, tol)
+		}
+	case c13RMS:
+		rms := ref.F64(rf.RMS)
+		tol := c13C * fn * c13Eps * rms
+		if e := ref.StreamAbsDiff(got, rf.RMS); !w.Err("RMS", e, tol) {
+			return fmt.Sprintf("RMS()=%.17g, root mean square is %.17g (err %.3g, tol %.3g)", got, rms, e, tol)
+		}
+	case c13Var:
+		v, tol, kappa := varWindow()
+		if e := ref.StreamAbsDiff(got, rf.Var); !w.Err("Variance", e, tol) {
+			return fmt.Sprintf("Variance()=%.17g, sample variance is %.17g (err %.3g, tol %.3g, kappa %.3g)", got, v, e, tol, kappa)
+		}
+	case c13SD:
+		v, tol, _ := varWindow()
+		sd := ref.F64(rf.Std)
+		lo := math.Sqrt(math.Max(0, v-tol)) * (1 - 4*c13Eps)
+		hi := math.Sqrt(v+tol) * (1 + 4*c13Eps)
+		stol := hi - sd
+		if got < sd {
+			stol = sd - lo
+		}
+		if e := ref.StreamAbsDiff(got, rf.Std); !w.Err("StdDev", e, stol) {
+			return fmt.Sprintf("StdDev()=%.17g, sample standard deviation is %.17g (err %.3g, tol %.3g)", got, sd, e, stol)
+		}
+	}
+	return ""
+}
+
+func c13JudgeBig(w *mon.W, c c13BigCase) {
+	na := len(c.Kinds)
+	if na < 1 || na > c13MaxAcc || len(c.Tot) != na || len(c.Centre) != na || c.Obs < 0 || c.Obs > 2 {
+		return
+	}
+	total := 0
+	for i, k := range c.Kinds {
+		if (k != c13KCluster && (k < 0 || k >= len(c13KindNames))) || c.Tot[i] < 0 || c.Tot[i] > 1<<22 {
+			return
+		}
+		total += c.Tot[i]
+	}
+	if total > 1<<23 || math.IsNaN(float64(c.Spread)) || math.IsInf(float64(c.Spread), 0) {
+		return
+	}
+	need := make([]int, na)
+	for _, op := range c.Ops {
+		if op.A < 0 || op.A >= na || (op.K != 0 && op.K != 1) || (op.K == 1 && (op.B < 0 || op.B >= na || op.B == op.A)) || op.N < 0 {
+			return
+		}
+		if op.K == 0 {
+			need[op.A] += op.N
+			if need[op.A] > c.Tot[op.A] {
+				return
+			}
+		}
+	}
+	mark := map[int]int{} // 2: fields and methods, 1: fields
+	for _, m := range c.FMarks {
+		mark[m] = 1
+	}
+	for _, m := range c.Marks {
+		mark[m] = 2
+	}
+	all := make([]int, 0, len(mark))
+	for m := range mark {
+		all = append(all, m)
+	}
+	c13SortInts(all)
+
+	// the assumed range, at this length: squares, their sums over the whole
+	// case and the merge term delta^2 nS nO neither overflow nor become
+	// subnormal (a function of the case only: the lists depend on Tot, not on
+	// how far the operations go)
+	src := make([][]float64, na)
+	maxAbs, minNZ := 0.0, math.Inf(1)
+	for i := range src {
+		src[i] = c13BigVals(&c, i)
+		for _, x := range src[i] {
+			ax := math.Abs(x)
+			if !(ax <= maxAbs) { // also a NaN
+				maxAbs = ax
+			}
+			if ax != 0 && ax < minNZ {
+				minNZ = ax
+			}
+		}
+	}
+	if !(maxAbs*float64(total) <= 1e150) || minNZ < 1e-140 {
+		w.Note("long-case-outside-assumed-range")
+		return
+	}
+	accs := make([]stats.StreamStats, na)
+	sums := make([]*ref.StreamSums, na)
+	pos := make([]int, na)
+	lastF := make([]c13Fields, na)
+	lastV := make([][c13NStat]float64, na) // methods read since the accumulator was last written ...
+	seen := make([][c13NStat]bool, na)     // ... if any
+	merged := make([]bool, na)             // holds the result of a merge of two non-empty parts
+	for i := range sums {
+		sums[i] = ref.NewStreamSums()
+		lastF[i] = c13ReadFields(&accs[i])
+	}
+	h := mon.NewHasher().U(c.VSeed).Is(c.Kinds).Is(c.Tot).Is(c.Marks).Is(c.FMarks).I(c.Obs).F(float64(c.Spread))
+	for _, x := range c.Centre {
+		h = h.F(float64(x))
+	}
+	for _, op := range c.Ops {
+		h = h.I(op.K).I(op.A).I(op.B).I(op.N)
+	}
+	defer func() { w.Distinct(h.Sum()) }()
+
+	trunc := c
+	refuted := false
+	step := 0
+	var op c13BigOp
+	bad := func(kind, msg string) {
+		refuted = true
+		w.Violate(kind, fmt.Sprintf("step %d %s: %s", step, c13BigOpString(op), msg), trunc)
+	}
+	nchk := int64(0)
+	// fields of the accumulator just written against the sums; every other
+	// accumulator must be what it was
+	checkFields := func(a int) {
+		for i := range accs {
+			f := c13ReadFields(&accs[i])
+			if i != a {
+				if !f.same(lastF[i]) {
+					kind := "bystander-modified"
+					if op.K == 1 && i == op.B {
+						kind = "argument-modified"
+					}
+					bad(kind, fmt.Sprintf("acc[%d] was %+v and is now %+v", i, lastF[i], f))
+				}
+				continue
+			}
+			lastF[i] = f
+			m := sums[i]
+			nchk += 4
+			if f.Count != uint(m.N) {
+				bad("Count", fmt.Sprintf("acc[%d] holds %d values: Count=%d", i, m.N, f.Count))
+			}
+			if m.N == 0 {
+				if f.Total != 0 {
+					bad("Total", fmt.Sprintf("acc[%d] holds no value: Total=%v", i, f.Total))
+				}
+				continue
+			}
+			if !(f.Min == m.Min) {
+				bad("Min", fmt.Sprintf("acc[%d] holds %d values: Min=%v, smallest value is %v", i, m.N, f.Min, m.Min))
+			}
+			if !(f.Max == m.Max) {
+				bad("Max", fmt.Sprintf("acc[%d] holds %d values: Max=%v, largest value is %v", i, m.N, f.Max, m.Max))
+			}
+			sumAbs, _ := m.A.Float64()
+			tol := c13C * float64(m.N) * c13Eps * sumAbs
+			if e := ref.StreamAbsDiff(f.Total, m.S); !w.Err("Total", e, tol) {
+				bad("Total", fmt.Sprintf("acc[%d] holds %d values: Total=%.17g, sum is %.17g (err %.3g, tol %.3g)", i, m.N, f.Total, ref.F64(m.S), e, tol))
+			}
+		}
+	}
+	// methods of acc[i]: judged, or - if read since it was last written - unmoved
+	readMethods := func(i int, rs *mon.Rand) {
+		n := sums[i].N
+		al := c13Allowed(n)
+		rs.ShuffleI(al)
+		var rf ref.StreamRef
+		have := false
+		for _, k := range al {
+			got, pmsg := c13Read(&accs[i], k)
+			if pmsg != "" {
+				bad("panic-observe", fmt.Sprintf("acc[%d] (%d values): %s", i, n, pmsg))
+				return
+			}
+			nchk++
+			if seen[i][k] {
+				if math.Float64bits(got) != math.Float64bits(lastV[i][k]) {
+					bad("argument-modified", fmt.Sprintf("acc[%d] (%d values, not written since): %s() was %.17g and is now %.17g", i, n, c13StatNames[k], lastV[i][k], got))
+				}
+				continue
+			}
+			seen[i][k], lastV[i][k] = true, got
+			if !have {
+				rf, have = sums[i].Ref(), true
+			}
+			if msg := c13BigStat(w, &rf, k, got); msg != "" {
+				bad(c13StatNames[k], fmt.Sprintf("acc[%d] holds %d values (min %v, max %v): %s", i, n, sums[i].Min, sums[i].Max, msg))
+			}
+		}
+		if n >= 2 {
+			w.HitIf(n >= 1000, "judged-count>=1e3")
+			w.HitIf(n >= 10000, "judged-count>=1e4")
+			w.HitIf(n >= 100000, "judged-count>=1e5")
+			w.HitIf(n >= 1000000, "judged-count>=1e6")
+			w.HitIf(c13IsRound(n), "judged-at-round-count")
+			w.HitIf(c13IsRound(n-1), "judged-just-past-round-count")
+			w.HitIf(merged[i] && n >= 10000, "judged-merge-of-large-parts")
+		}
+	}
+	written := func(a int) {
+		for k := range seen[a] {
+			seen[a][k] = false
+		}
+	}
+
+	for step, op = range c.Ops {
+		trunc.Ops = append([]c13BigOp(nil), c.Ops[:step+1]...)
+		last := step == len(c.Ops)-1
+		rs := mon.NewRand(c.VSeed, ^uint64(0), uint64(step))
+		a := op.A
+		s, m := &accs[a], sums[a]
+		if op.K == 0 {
+			w.HitIf(merged[a] && op.N > 0 && m.N >= 10000, "add-after-large-merge")
+			left := op.N
+			for left > 0 && !refuted {
+				// up to the next mark of this accumulator's logical count
+				run := left
+				mi := c13SearchInts(all, m.N+1)
+				if mi < len(all) && all[mi]-m.N < run {
+					run = all[mi] - m.N
+				}
+				xs := src[a][pos[a] : pos[a]+run]
+				if p, v := mon.Call(func() {
+					for _, x := range xs {
+						s.Add(x)
+					}
+				}); p {
+					trunc.Ops[step].N = op.N - left + run
+					bad("panic-Add", fmt.Sprintf("panicked: %v", v))
+					return
+				}
+				for _, x := range xs {
+					m.Add(x)
+				}
+				pos[a] += run
+				left -= run
+				w.EvalN("Add", int64(run))
+				written(a)
+				trunc.Ops[step].N = op.N - left
+				checkFields(a)
+				if !refuted && c.Obs == 0 && mark[m.N] == 2 {
+					readMethods(a, rs)
+				}
+			}
+		} else {
+			b := op.B
+			o := sums[b]
+			if m.N > 0 && o.N > 0 {
+				lo := m.N
+				if o.N < lo {
+					lo = o.N
+				}
+				w.HitIf(lo >= 1000, "merge-both-sides>=1e3")
+				w.HitIf(lo >= 10000, "merge-both-sides>=1e4")
+				w.HitIf(lo >= 100000, "merge-both-sides>=1e5")
+				w.HitIf(c13IsRound(m.N) || c13IsRound(o.N) || c13IsRound(m.N+o.N), "merge-at-round-count")
+				if lo >= 1000 {
+					ra, rb := m.Ref(), o.Ref()
+					ma, sa := ref.F64(ra.Mean), ref.F64(ra.Std)
+					mb, sb := ref.F64(rb.Mean), ref.F64(rb.Std)
+					w.HitIf(math.Abs(ma-mb) > math.Max(sa, sb), "large-merge-means-apart")
+					w.HitIf(math.Abs(ma-mb) <= math.Max(sa, sb), "large-merge-means-close")
+				}
+				merged[a] = true
+			} else if o.N > 0 {
+				merged[a] = merged[b]
+				w.HitIf(o.N >= 1000, "large-merge-empty-receiver")
+			} else {
+				w.HitIf(m.N >= 1000, "large-merge-empty-argument")
+			}
+			if c.Obs != 2 && o.N > 0 {
+				// the argument is observed before the merge, so that it can be
+				// seen not to have moved after it
+				readMethods(b, rs)
+				if refuted {
+					return
+				}
+			}
+			w.Eval("Combine")
+			if p, v := mon.Call(func() { s.Combine(&accs[b]) }); p {
+				bad("panic-Combine", fmt.Sprintf("panicked: %v", v))
+				return
+			}
+			m.Combine(o)
+			if o.N > 0 {
+				written(a)
+			}
+			checkFields(a)
+			if !refuted && c.Obs != 2 {
+				readMethods(a, rs)
+				if o.N > 0 && !refuted {
+					readMethods(b, rs)
+				}
+			}
+		}
+		if last && !refuted {
+			w.HitIf(c.Obs == 2, "long-history-observed-only-at-end")
+			for _, i := range rs.Perm(na) {
+				readMethods(i, rs)
+				if refuted {
+					break
+				}
+			}
+		}
+		w.EvalN("statistic-checked", nchk)
+		nchk = 0
+		if refuted {
+			return
+		}
+	}
+}
+
+func c13BigOpString(o c13BigOp) string {
+	if o.K == 0 {
+		return fmt.Sprintf("acc[%d] receives %d values", o.A, o.N)
+	}
+	return fmt.Sprintf("acc[%d].Combine(&acc[%d])", o.A, o.B)
+}
+
+func c13SortInts(xs []int) { sort.Ints(xs) }
+
+// sortSearchInts: index of the first element >= v.
+func c13SearchInts(xs []int, v int) int { return sort.SearchInts(xs, v) }
+
+// c13BigSize draws a size in [lo, hi]: log-uniform, or at / just beyond (now
+// and then just below) a round number.
+func c13BigSize(rng *mon.Rand, lo, hi int) int {
+	if rng.Bool() {
+		var cand []int
+		for _, r := range c13Rounds {
+			if r >= lo && r <= hi {
+				cand = append(cand, r)
+			}
+		}
+		if len(cand) > 0 {
+			r := cand[rng.Intn(len(cand))]
+			return r + rng.PickI(0, 0, 0, 1, 1, 2, 3, 17, -1, r/64)
+		}
+	}
+	return int(rng.LogUniform(float64(lo), float64(hi)))
+}
+
+// c13GenBig: regime 0 a single stream; 1 parts of comparable size merged by a
+// star, a chain or a random tree, with values still arriving between and
+// after the merges. huge: the stream / the parts reach 10^5..10^6 values.
+// force (with huge): the stream has at least 1e6 values / two parts of at
+// least 1e5 values each are merged.
+func c13GenBig(rng *mon.Rand, regime int, huge, force bool) c13BigCase {
+	c := c13BigCase{Big: true, VSeed: rng.Uint64() >> 12, Spread: 1}
+	na := 1
+	if regime == 1 {
+		na = rng.PickI(2, 2, 2, 3, 3, 4, 5, 6)
+		if huge {
+			na = rng.PickI(2, 2, 3)
+		}
+		if force {
+			na = 2
+		}
+	}
+	// value kinds: one kind for all sources, a kind per source, or clusters
+	// of one spread around centres 0.5 .. 1e6 spreads apart
+	mode := rng.Intn(3)
+	kind := c13PickKind(rng)
+	if rng.Bool() {
+		c.Spread = mon.F(math.Pow(10, float64(rng.Range(-12, 12))))
+	}
+	var names []string
+	for i := 0; i < na; i++ {
+		k := kind
+		switch mode {
+		case 1:
+			k = c13PickKind(rng)
+		case 2:
+			k = c13KCluster
+		}
+		if k == 11 || k == 12 { // 1e-149..1e149: outside the assumed range at these lengths
+			k -= 11
+		}
+		c.Kinds = append(c.Kinds, k)
+		ctr := 0.0
+		if k == c13KCluster {
+			ctr = math.Pow(10, rng.Uniform(-0.3, 6)) * float64(c.Spread) * rng.Sign()
+			if rng.Intn(4) == 0 {
+				ctr = 0
+			}
+			names = append(names, "cluster")
+		} else {
+			names = append(names, c13KindNames[k])
+		}
+		c.Centre = append(c.Centre, mon.F(ctr))
+	}
+	// sizes
+	c.Tot = make([]int, na)
+	maxCount := 0
+	if regime == 0 {
+		n := c13BigSize(rng, c13MaxCount, 200000)
+		if huge {
+			n = c13BigSize(rng, 200000, 1200000)
+		}
+		if force {
+			n = c13BigSize(rng, 1000001, 1200000)
+		}
+		c.Tot[0] = n
+		c.Ops = append(c.Ops, c13BigOp{K: 0, A: 0, N: n})
+		maxCount = n
+	} else {
+		// every part within a factor of two of one magnitude, so that a cutoff
+		// "both sides at least T" is passed for T anywhere in the range
+		mag := rng.LogUniform(c13MaxCount, 150000)
+		if huge {
+			mag = rng.LogUniform(100000, 300000)
+		}
+		if force {
+			mag = rng.LogUniform(210000, 300000)
+		}
+		first := make([]int, na)
+		for i := range first {
+			if rng.Intn(3) == 0 {
+				first[i] = c13BigSize(rng, int(mag/2)+1, int(mag*2))
+			} else {
+				first[i] = int(mag * rng.Uniform(0.5, 2))
+			}
+			if na >= 3 && rng.Intn(10) == 0 {
+				first[i] = 0 // an empty part among large ones
+			}
+			c.Tot[i] = first[i]
+			c.Ops = append(c.Ops, c13BigOp{K: 0, A: i, N: first[i]})
+		}
+		cnt := append([]int(nil), first...)
+		more := func(a int) { // values arriving after a merge
+			if rng.Intn(3) == 0 {
+				n := rng.PickI(1, 2, rng.Range(1, 300), int(mag*rng.Uniform(0.01, 0.5)))
+				c.Tot[a] += n
+				cnt[a] += n
+				c.Ops = append(c.Ops, c13BigOp{K: 0, A: a, N: n})
+			}
+		}
+		comb := func(a, b int) {
+			c.Ops = append(c.Ops, c13BigOp{K: 1, A: a, B: b})
+			cnt[a] += cnt[b]
+		}
+		live := rng.Perm(na)
+		switch shape := rng.Intn(3); shape {
+		case 0: // star
+			for _, b := range live[1:] {
+				comb(live[0], b)
+				more(live[0])
+			}
+		case 1: // chain, the result handed along as the argument
+			for i := 1; i < na; i++ {
+				comb(live[i], live[i-1])
+				more(live[i])
+			}
+		default: // random tree
+			for len(live) > 1 {
+				i := rng.Intn(len(live))
+				j := rng.Intn(len(live) - 1)
+				if j >= i {
+					j++
+				}
+				comb(live[i], live[j])
+				more(live[i])
+				live = append(live[:j], live[j+1:]...)
+			}
+		}
+		for _, n := range cnt {
+			if n > maxCount {
+				maxCount = n
+			}
+		}
+	}
+	// marks: every round count (and its neighbours) and a dozen drawn counts up
+	// to the largest count of the case; the methods at a drawn share of them
+	c.Obs = rng.PickI(0, 0, 1, 2)
+	pMeth := rng.Pick(0.1, 0.5, 1)
+	put := func(m int) {
+		if m < 1 || m > maxCount {
+			return
+		}
+		if rng.Float64() < pMeth {
+			c.Marks = append(c.Marks, m)
+		} else {
+			c.FMarks = append(c.FMarks, m)
+		}
+	}
+	for _, r := range c13Rounds {
+		if r <= maxCount+1 {
+			put(r - 1)
+			put(r)
+			put(r + 1)
+		}
+	}
+	for i := 0; i < 12; i++ {
+		put(int(rng.LogUniform(2, float64(maxCount)+1)))
+	}
+	c13SortInts(c.Marks)
+	c13SortInts(c.FMarks)
+	tag := "long-stream"
+	if regime == 1 {
+		tag = "long-merge"
+	}
+	if huge {
+		tag += "-huge"
+	}
+	c.Tag = tag + "/" + strings.Join(names, "+") + "/" + c13BigObsNames[c.Obs]
+	return c
 }
